@@ -3,6 +3,7 @@
 //! Parentheses never appear in the tree (they only steer parsing).
 
 use crate::lex::{Dialect, Tok, Token};
+use crate::stmt::Tree;
 
 #[derive(Clone, Debug, PartialEq)]
 pub enum PX {
@@ -31,6 +32,10 @@ pub enum PX {
     Array(Vec<PX>),
     /// expr OVER (...) / OVER name — window text kept as token text
     Over(Box<PX>, String),
+    /// parsed subquery (statement-level parsing)
+    SubT(Option<String>, Box<Tree>),
+    /// expr OVER ( parsed window specification )
+    OverT(Box<PX>, Box<Tree>),
 }
 
 #[derive(Clone, Debug, PartialEq)]
@@ -45,6 +50,8 @@ pub struct P<'a> {
     pub i: usize,
     /// words that end an expression in the enclosing clause grammar (upper case)
     pub stop: Vec<&'static str>,
+    /// parse subqueries and window specifications instead of keeping their token text
+    pub parse_subqueries: bool,
 }
 
 pub type R<T> = Result<T, ParseErr>;
@@ -67,7 +74,7 @@ struct OpInfo {
 
 impl<'a> P<'a> {
     pub fn new(d: Dialect, t: &'a [Token]) -> Self {
-        P { d, t, i: 0, stop: vec![] }
+        P { d, t, i: 0, stop: vec![], parse_subqueries: false }
     }
     pub fn peek(&self) -> Option<&'a Tok> {
         self.t.get(self.i).map(|t| &t.tok)
@@ -145,6 +152,22 @@ impl<'a> P<'a> {
             self.i += 1;
         }
         self.err("unbalanced parentheses")
+    }
+
+    /// `( statement )` as a subquery node
+    fn subquery(&mut self, op: Option<String>) -> R<PX> {
+        if self.parse_subqueries {
+            self.expect(&Tok::LParen)?;
+            let saved = std::mem::take(&mut self.stop);
+            let t = self.select_stmt();
+            self.stop = saved;
+            let t = t?;
+            self.expect(&Tok::RParen)?;
+            Ok(PX::SubT(op, Box::new(t)))
+        } else {
+            let s = self.skip_parens()?;
+            Ok(PX::Sub(op, s))
+        }
     }
 
     fn starts_subquery(&self) -> bool {
@@ -374,8 +397,8 @@ impl<'a> P<'a> {
                 }
                 "IN" => {
                     if self.starts_subquery() {
-                        let s = self.skip_parens()?;
-                        lhs = PX::InSub { not, e: Box::new(lhs), sub: Box::new(PX::Sub(None, s)) };
+                        let sub = self.subquery(None)?;
+                        lhs = PX::InSub { not, e: Box::new(lhs), sub: Box::new(sub) };
                     } else {
                         self.expect(&Tok::LParen)?;
                         let mut list = vec![];
@@ -476,6 +499,13 @@ impl<'a> P<'a> {
             }
             if self.is_word("OVER") {
                 self.i += 1;
+                if self.parse_subqueries && self.peek() == Some(&Tok::LParen) {
+                    self.i += 1;
+                    let w = self.window_spec_pub()?;
+                    self.expect(&Tok::RParen)?;
+                    p = PX::OverT(Box::new(p), Box::new(w));
+                    continue;
+                }
                 let w = if self.peek() == Some(&Tok::LParen) {
                     format!("( {} )", self.skip_parens()?)
                 } else {
@@ -559,8 +589,7 @@ impl<'a> P<'a> {
             }
             Tok::LParen => {
                 if self.starts_subquery() {
-                    let s = self.skip_parens()?;
-                    return Ok(PX::Sub(None, s));
+                    return self.subquery(None);
                 }
                 self.i += 1;
                 let saved = std::mem::take(&mut self.stop);
@@ -591,8 +620,7 @@ impl<'a> P<'a> {
                     "EXISTS" | "ANY" | "SOME" | "ALL" if self.peek_n(1) == Some(&Tok::LParen) => {
                         self.i += 1;
                         if self.starts_subquery() {
-                            let s = self.skip_parens()?;
-                            Ok(PX::Sub(Some(up), s))
+                            self.subquery(Some(up))
                         } else if up != "EXISTS" && self.d == Dialect::Postgres {
                             // ANY(array expr)
                             self.i -= 1;
@@ -629,6 +657,7 @@ impl<'a> P<'a> {
                         }
                         Ok(PX::Array(items))
                     }
+                    "VALUES" if self.d == Dialect::Mysql && self.peek_n(1) == Some(&Tok::LParen) => self.column_or_call(),
                     "SELECT" | "FROM" | "WHERE" | "GROUP" | "HAVING" | "ORDER" | "LIMIT" | "OFFSET" | "UNION" | "AND" | "OR"
                     | "THEN" | "ELSE" | "END" | "WHEN" | "AS" | "ON" | "JOIN" | "SET" | "VALUES" | "INTO" | "BETWEEN"
                     | "IN" | "LIKE" | "IS" | "ESCAPE" => self.err(format!("unexpected keyword {up}")),
@@ -788,6 +817,8 @@ impl PX {
             PX::Sub(o, s) => format!("{}SUB[{s}]", o.clone().map(|x| x + " ").unwrap_or_default()),
             PX::Array(v) => format!("ARRAY[{}]", v.iter().map(|x| x.show()).collect::<Vec<_>>().join(", ")),
             PX::Over(e, w) => format!("{} OVER {w}", e.show()),
+            PX::SubT(o, t) => format!("{}SUB[{}]", o.clone().map(|x| x + " ").unwrap_or_default(), t.show()),
+            PX::OverT(e, w) => format!("{} OVER {}", e.show(), w.show()),
         }
     }
 }
